@@ -148,22 +148,27 @@ func H_C03_group1() {
 	n := verif.Choose("rows", maxRows(3, 4)+1)
 	form := verif.Choose("form", 5)
 	verif.Opt("maporder", 3)
-	doc, rows := numTable(n, "k", "v")
+	// column names are case-sensitive keys of the rows: lower-case and mixed-case spellings
+	kc, vc := "k", "v"
+	if verif.Choose("column-names", 2) == 1 {
+		kc, vc = "Cat", "subTotal"
+	}
+	doc, rows := numTable(n, kc, vc)
 	c := verif.F64("c")
 	var sql string
 	switch form {
 	case 3:
 		// the member rows of each group, in source order
-		sql = "SELECT k, * FROM t GROUP BY k"
+		sql = "SELECT " + kc + ", * FROM t GROUP BY " + kc
 	case 4:
 		// HAVING on an aggregate that is not in the select list
-		sql = verif.SQL("SELECT k, COUNT(*) AS c FROM t GROUP BY k HAVING MAX(v) > ?", c)
+		sql = verif.SQL("SELECT "+kc+", COUNT(*) AS c FROM t GROUP BY "+kc+" HAVING MAX("+vc+") > ?", c)
 	case 0:
-		sql = "SELECT k, COUNT(*) AS c, SUM(v) AS s, MIN(v) AS mn, MAX(v) AS mx, AVG(v) AS av FROM t GROUP BY k"
+		sql = "SELECT " + kc + ", COUNT(*) AS c, SUM(" + vc + ") AS s, MIN(" + vc + ") AS mn, MAX(" + vc + ") AS mx, AVG(" + vc + ") AS av FROM t GROUP BY " + kc
 	case 1:
-		sql = verif.SQL("SELECT k, COUNT(*) AS c, SUM(v) AS s FROM t WHERE v > ? GROUP BY k", c)
+		sql = verif.SQL("SELECT "+kc+", COUNT(*) AS c, SUM("+vc+") AS s FROM t WHERE "+vc+" > ? GROUP BY "+kc, c)
 	case 2:
-		sql = "SELECT k, COUNT(*) AS c, SUM(v) AS s FROM t GROUP BY k HAVING COUNT(*) > 1"
+		sql = "SELECT " + kc + ", COUNT(*) AS c, SUM(" + vc + ") AS s FROM t GROUP BY " + kc + " HAVING COUNT(*) > 1"
 	}
 	got, ok := runQuery(doc, sql)
 	if !ok {
@@ -171,35 +176,35 @@ func H_C03_group1() {
 	}
 	var kept []Map
 	for _, r := range rows {
-		if form != 1 || f64of(r["v"]) > c {
+		if form != 1 || f64of(r[vc]) > c {
 			kept = append(kept, r)
 		}
 	}
 	var want []any
 	total := 0
-	for _, g := range refGroupBy(kept, "k") {
+	for _, g := range refGroupBy(kept, kc) {
 		total += len(g.members)
 		if form == 2 && !(len(g.members) > 1) {
 			continue
 		}
-		if form == 4 && !(f64of(refMax(g.members, "v")) > c) {
+		if form == 4 && !(f64of(refMax(g.members, vc)) > c) {
 			continue
 		}
 		if form == 3 {
 			var members []any
 			for _, m := range g.members {
-				members = append(members, Map{"k": m["k"], "v": m["v"]})
+				members = append(members, Map{kc: m[kc], vc: m[vc]})
 			}
-			want = append(want, Map{"k": g.key[0], "*": members})
+			want = append(want, Map{kc: g.key[0], "*": members})
 			continue
 		}
 		if form == 4 {
-			want = append(want, Map{"k": g.key[0], "c": len(g.members)})
+			want = append(want, Map{kc: g.key[0], "c": len(g.members)})
 			continue
 		}
-		row := Map{"k": g.key[0], "c": len(g.members), "s": refSum(g.members, "v")}
+		row := Map{kc: g.key[0], "c": len(g.members), "s": refSum(g.members, vc)}
 		if form == 0 {
-			row["mn"], row["mx"], row["av"] = refMin(g.members, "v"), refMax(g.members, "v"), refAvg(g.members, "v")
+			row["mn"], row["mx"], row["av"] = refMin(g.members, vc), refMax(g.members, vc), refAvg(g.members, vc)
 		}
 		want = append(want, row)
 	}
